@@ -226,11 +226,19 @@ def pathqLine (f : Fam) (p : Text) : String :=
       | none => "PANIC"
     s!"e={b01 (Path.is_empty p)} a={b01 (Path.is_absolute p)} n={(Path.segmentList p).length} first={ohex (Path.first p)} last={ohex (Path.last p)} fn={ohex (Path.file_name p)} dir={hex (Path.directory p)} par={ohex (Path.parent p)} poe={hex (Path.parent_or_empty p)} nlen={(Path.normalized_segments p).length} segs=[{hexList (Path.segmentList p)}] rsegs=[{hexList (Path.segmentListRev p)}] nsegs=[{hexList (Path.normalized_segments p)}] norm={norm} norm2={norm2}"
 
+/-- `f` = `next`, `b` = `next_back`; a final `c` / `l` / `z` consumes what is left with
+`Iterator::count` / `Iterator::last` / `size_hint` + `count` -/
 def segsGo (p : Text) : Path.Segments → List Char → List String
   | _, [] => []
   | s, c :: cs =>
-    let r := if c == 'f' then Path.Segments.next p s else Path.Segments.next_back p s
-    ohex r.1 :: segsGo p r.2 cs
+    if c == 'c' || c == 'l' || c == 'z' then
+      let rest := Path.Segments.collect p (p.length + 2) s
+      if c == 'c' then [s!"rest={rest.length}"]
+      else if c == 'l' then [s!"last={ohex rest.getLast?}"]
+      else [s!"hint=ok rest={rest.length}"]
+    else
+      let r := if c == 'f' then Path.Segments.next p s else Path.Segments.next_back p s
+      ohex r.1 :: segsGo p r.2 cs
 
 def segsLine (f : Fam) (p : Text) (sched : String) : String :=
   if !okArg f "path" p then "invalid"
